@@ -111,6 +111,9 @@ def fetch_cases(rng, tier):
     return out
 
 
+PROPS_FILES = ['C13', 'C13step']
+
+
 def units():
     thms = ['C13_MemA_read', 'C13_MemA_write', 'C13_MemA_read_fault', 'C13_MemA_write_fault', 'C13_MemU_read_dispatch',
             'C13_MemU_write_dispatch', 'C13_flat_translation', 'C13_MemA_read_flat', 'C13_MemA_write_flat', 'C13_MemU_read_flat',
@@ -118,4 +121,5 @@ def units():
     needs = ['arm_v6.ArmV6.' + n for n in ('mem_a_with_priv_get', 'mem_a_with_priv_set', 'mem_u_with_priv_get', 'mem_u_with_priv_set',
                                            'mem_i_get', 'alignment_fault', 'data_abort', 'translate_address_p')]
     return [Unit('memory_access', thms, ['Proofs/MemProofs.v', 'Proofs/MemFacts.v', 'Proofs/HubProofs.v'], needs, cases, IMPORTS, SPEC_IMPORTS),
-            Unit('fetch', [], [], [], fetch_cases, IMPORTS, SPEC_IMPORTS)]
+            Unit('fetch', ['C13_fetch_arm_flat', 'C13_fetch_thumb16_flat', 'C13_fetch_thumb32_flat'], ['Proofs/StepFetch.v', 'Proofs/MemProofs.v'], ['arm_v6.ArmV6.fetch_instruction', 'arm_v6.ArmV6.mem_i_get'],
+                 fetch_cases, IMPORTS, SPEC_IMPORTS)]
